@@ -716,7 +716,10 @@ func (s *TxStore) Rollback(tx mwdb.DBTransaction, height uint64) error {
 						"blkHash": rbBlock.Hash.String(),
 						"blokTxs": rbBlock.transactions,
 					})
-				continue
+				// The block record lists this transaction, so its record must
+				// be readable; skipping it (e.g. after a failed read) would
+				// commit a rollback that leaves its credits and debits behind.
+				return err
 			}
 			var rec TxRecord
 			rec.Hash = *txHash
